@@ -328,7 +328,9 @@ impl Prop for C18 {
         let mut f = Vec::new();
         let alphabet = ops_alphabet();
         let n = alphabet.len();
-        let d = tier.pick(3, 4);
+        // quick: un-merged to depth 2, the merged layer (reachable-states) goes to depth 4;
+        // thorough: un-merged to depth 4
+        let d = tier.pick(2, 4);
         {
             let alphabet = alphabet.clone();
             f.push(Family::new(
@@ -409,7 +411,7 @@ impl Prop for C18 {
     fn bfs_layers(&self, tier: Tier) -> Vec<Bfs<Case>> {
         let alphabet = ops_alphabet();
         let n = alphabet.len();
-        let (max_en, max_tr, depth) = tier.pick((1, 1, 4), (3, 1, 12));
+        let (max_en, max_tr, depth) = tier.pick((2, 1, 4), (3, 1, 12));
         vec![Bfs::new(
             "reachable-states",
             &format!("explicit-state search over ALL {} operations from the fresh calculator; a state is the model state (ordered surviving rules per language, user family items) together with the fingerprint of the 21 probe observations; state constraint: at most {} live English and {} live Turkish custom rules (states beyond it are checked but not expanded); every edge replays the shortest history to its source state on a fresh calculator, applies the operation and runs the full oracle (return values, fresh-calculator equivalence, rule effect, chain arithmetic); depth bound {}", n, max_en, max_tr, depth),
